@@ -15,8 +15,14 @@
      the single sketch fed the concatenated input).
   2. `ForEachList` of the instance: `sim_forEachList` (equal lists under `Sim`), `forEachList_is_ForEach`
      (the list is exactly what the regenerated `ForEach` hands, in order, to a visitor that never stops).
-  3. `Encode` of the instance: see the section header below for what is true (the bytes are NOT equal in
-     general, their denotation is).
+  3. `Encode` of the instance (its fuel `encodeFuel compactFuel (ofGen g) + 1` is sufficient by
+     `GenPagCodec.Encode_inv`: no corrected instance was needed): `sim_encode` (both encoders succeed, each
+     appends the bytes of the model's blocks for ITS OWN compacted store, results related again),
+     `sim_encode_denotes` (under `RoundTrip.PagOK` both block lists are well-formed bins blocks denoting the common
+     content); the bytes themselves are NOT equal in general — see the section header.  Sketch level:
+     `Encode_param` (`DDSketch.Encode` over the two instances: same outcome, common prefix, store blocks with the
+     same denotation, receivers related again).
+  NOT covered: `DecodeAndMergeWith` of the instance (`gDecode`), the exact-summary variant.
 
   Core Lean only.
 -/
@@ -92,15 +98,15 @@ theorem forEachList_is_ForEach (s : PStore) (cap : Int) (fuel : Nat) (hf : forEa
 open DDS.RoundTrip in
 /-- `Encode` on related stores (buffer of the regenerated store shorter than `2^64`) -/
 theorem sim_encode {x : GPS grow} {st : Store} (h : Sim x st) (side : Side) (t : Gen.Encoding.FlagType)
-    (ht : t.byte.toNat = Wire.sideType side) (hs : GenSketch.flagSide t = side) (b : List (BitVec 8))
+    (ht : t.byte.toNat = Wire.sideType side) (hs : GenSketch.flagSide t = side) (b b' : List (BitVec 8))
     (hlen : (ofGen x.g).buffer.length < 2 ^ 64) :
     ∃ (s1 s1' : PStore) (cap : Int) (bl bl' : List Block),
       Sketch.encodeStore (.pg (ofGen x.g)) side = some (.pg s1, bl) ∧
       Sketch.encodeStore st side = some (.pg s1', bl') ∧
       (StoreI.Encode x b t : GPS grow × List (BitVec 8)) =
         (⟨toGen s1 cap⟩, b ++ GenEncoding.bn (Wire.encBlocks bl)) ∧
-      (StoreI.Encode st b t : Store × List (BitVec 8)) = (.pg s1', b ++ GenEncoding.bn (Wire.encBlocks bl')) ∧
-      Sim (StoreI.Encode x b t).1 (StoreI.Encode st b t).1 := by
+      (StoreI.Encode st b' t : Store × List (BitVec 8)) = (.pg s1', b' ++ GenEncoding.bn (Wire.encBlocks bl')) ∧
+      Sim (StoreI.Encode x b t).1 (StoreI.Encode st b' t).1 := by
   obtain ⟨s, s', cap, hx, rfl, hi, hi', hc⟩ := h
   rw [hx, ofGen_toGen] at hlen
   obtain ⟨s1, bl, e1, g1, i1, c1⟩ := Encode_inv compactFuel compactSpec (encodeFuel compactFuel s + 1) s cap side t ht b
@@ -111,9 +117,9 @@ theorem sim_encode {x : GPS grow} {st : Store} (h : Sim x st) (side : Side) (t :
   have hG : (StoreI.Encode x b t : GPS grow × List (BitVec 8)) =
       (⟨toGen s1 cap⟩, b ++ GenEncoding.bn (Wire.encBlocks bl)) := by
     simp only [gps_encode, gEncode, hx, ofGen_toGen, g1]
-  have hM : (StoreI.Encode (Store.pg s') b t : Store × List (BitVec 8)) =
-      (.pg s1', b ++ GenEncoding.bn (Wire.encBlocks (pagBlocks s1' side))) := by
-    show GenSketch.storeEncode (.pg s') b t = _
+  have hM : (StoreI.Encode (Store.pg s') b' t : Store × List (BitVec 8)) =
+      (.pg s1', b' ++ GenEncoding.bn (Wire.encBlocks (pagBlocks s1' side))) := by
+    show GenSketch.storeEncode (.pg s') b' t = _
     unfold GenSketch.storeEncode
     rw [hs, e1']
     rfl
@@ -122,18 +128,20 @@ theorem sim_encode {x : GPS grow} {st : Store} (h : Sim x st) (side : Side) (t :
   exact ⟨s1, s1', cap, rfl, rfl, i1, i1', by rw [c1, c1', hc]⟩
 
 open DDS.RoundTrip in
-/-- **the bytes written on related stores denote the same content** -/
+/-- **the bytes written on related stores denote the same content** (the two buffers appended to may differ:
+    the sketch encoder calls the negative store after the positive one) -/
 theorem sim_encode_denotes {x : GPS grow} {s' : PStore} (h : Sim x (.pg s')) (side : Side)
     (t : Gen.Encoding.FlagType) (ht : t.byte.toNat = Wire.sideType side) (hs : GenSketch.flagSide t = side)
-    (b : List (BitVec 8)) (hp : PagOK (ofGen x.g)) (hp' : PagOK s') :
-    ∃ (bl bl' : List Block),
-      (StoreI.Encode x b t : GPS grow × List (BitVec 8)).2 = b ++ GenEncoding.bn (Wire.encBlocks bl) ∧
-      (StoreI.Encode (Store.pg s') b t : Store × List (BitVec 8)).2 = b ++ GenEncoding.bn (Wire.encBlocks bl') ∧
+    (b b' : List (BitVec 8)) (hp : PagOK (ofGen x.g)) (hp' : PagOK s') :
+    ∃ (x1 : GPS grow) (s1' : PStore) (bl bl' : List Block),
+      (StoreI.Encode x b t : GPS grow × List (BitVec 8)) = (x1, b ++ GenEncoding.bn (Wire.encBlocks bl)) ∧
+      (StoreI.Encode (Store.pg s') b' t : Store × List (BitVec 8)) =
+        (.pg s1', b' ++ GenEncoding.bn (Wire.encBlocks bl')) ∧
       (∀ k ∈ bl, k.WF ∧ k.FiniteWeights ∧ IsBins side k) ∧ (∀ k ∈ bl', k.WF ∧ k.FiniteWeights ∧ IsBins side k) ∧
       Denotes (sideBins (Wire.interp bl) side) (content s') ∧
       Denotes (sideBins (Wire.interp bl') side) (content s') ∧
-      Sim (StoreI.Encode x b t).1 (StoreI.Encode (Store.pg s') b t).1 := by
-  obtain ⟨s1, s1', cap, bl, bl', e1, e1', hG, hM, hS⟩ := sim_encode h side t ht hs b hp.bufLen
+      Sim x1 (.pg s1') := by
+  obtain ⟨s1, s1', cap, bl, bl', e1, e1', hG, hM, hS⟩ := sim_encode h side t ht hs b b' hp.bufLen
   obtain ⟨_, _, _, _, bl2, e2, w2, d2⟩ := storeEncodes_pag (ofGen x.g) hp side
   obtain ⟨_, _, _, _, bl2', e2', w2', d2'⟩ := storeEncodes_pag s' hp' side
   rw [e1] at e2
@@ -146,7 +154,8 @@ theorem sim_encode_denotes {x : GPS grow} {s' : PStore} (h : Sim x (.pg s')) (si
     cases hst
     rw [hx, ofGen_toGen]; exact hc
   rw [hcont] at d2
-  exact ⟨bl, bl', by rw [hG], by rw [hM], w2, w2', d2, d2', hS⟩
+  rw [hG, hM] at hS
+  exact ⟨_, s1', bl, bl', hG, hM, w2, w2', d2, d2', hS⟩
 
 section sketch
 
@@ -238,6 +247,71 @@ theorem tree_observers_param (m : M) (t : GTree) (hl : ∀ p ∈ t.flat, Routed3
   obtain ⟨he, hs⟩ := evalTree_param (grow := grow) (skSim_new m) t hl
   exact ⟨he, hs, GetCount_param hs, IsEmpty_param hs, GetZeroCount_param hs,
     fun q => GetValueAtQuantile_param hs q, GetMinValue_param hs, GetMaxValue_param hs⟩
+
+/-! ### the sketch-level `Encode`, up to denotation -/
+
+theorem flagSide_pos : GenSketch.flagSide Gen.Encoding.FlagTypePositiveStore = .pos := by decide
+theorem flagSide_neg : GenSketch.flagSide Gen.Encoding.FlagTypeNegativeStore = .neg := by decide
+
+open DDS.RoundTrip in
+/-- **`DDSketch.Encode` over the two store instances**: the same outcome (both succeed, or both stop with the same
+    failure of the zero-count prefix); on success the receivers are related again and the two byte strings are a
+    COMMON prefix `b0` (zero-count block and mapping block: equal bytes) followed by the positive-store blocks and
+    the negative-store blocks, which are well-formed bins blocks denoting the same contents `cp`, `cn` on both
+    sides (the store bytes themselves differ in general).  Hypothesis: the encoder's range condition `PagOK` on
+    the four stores. -/
+theorem Encode_param {a : DDSketch M (GPS grow)} {b : DDSketch M Store} (h : SkSim a b) (fuel : Nat)
+    (buf : List (BitVec 8)) (om : Bool)
+    (hpp : PagOK (GenPag.ofGen a.positiveValueStore.g)) (hpn : PagOK (GenPag.ofGen a.negativeValueStore.g))
+    (hpp' : ∀ s', b.positiveValueStore = .pg s' → PagOK s')
+    (hpn' : ∀ s', b.negativeValueStore = .pg s' → PagOK s') :
+    (∃ (a' : DDSketch M (GPS grow)) (b' : DDSketch M Store) (b0 : List (BitVec 8))
+        (pbl pbl' nbl nbl' : List Block) (cp cn : Content),
+      DDSketch.Encode fuel a buf om =
+        .ok (a', b0 ++ GenEncoding.bn (Wire.encBlocks pbl) ++ GenEncoding.bn (Wire.encBlocks nbl)) ∧
+      DDSketch.Encode fuel b buf om =
+        .ok (b', b0 ++ GenEncoding.bn (Wire.encBlocks pbl') ++ GenEncoding.bn (Wire.encBlocks nbl')) ∧
+      SkSim a' b' ∧
+      (∀ k ∈ pbl, k.WF ∧ k.FiniteWeights ∧ IsBins .pos k) ∧ (∀ k ∈ pbl', k.WF ∧ k.FiniteWeights ∧ IsBins .pos k) ∧
+      (∀ k ∈ nbl, k.WF ∧ k.FiniteWeights ∧ IsBins .neg k) ∧ (∀ k ∈ nbl', k.WF ∧ k.FiniteWeights ∧ IsBins .neg k) ∧
+      Denotes (sideBins (Wire.interp pbl) .pos) cp ∧ Denotes (sideBins (Wire.interp pbl') .pos) cp ∧
+      Denotes (sideBins (Wire.interp nbl) .neg) cn ∧ Denotes (sideBins (Wire.interp nbl') .neg) cn) ∨
+    (DDSketch.Encode fuel a buf om = .panic ∧ DDSketch.Encode fuel b buf om = .panic) ∨
+    (DDSketch.Encode fuel a buf om = .nofuel ∧ DDSketch.Encode fuel b buf om = .nofuel) := by
+  cases a with
+  | mk ma pa na za =>
+  cases b with
+  | mk mb pb nb zb =>
+  obtain ⟨hm, hpos, hneg, hz⟩ := h
+  simp only at hm hz hpos hneg hpp hpn hpp' hpn'
+  subst hm hz
+  obtain ⟨qp, eqp, _⟩ := sim_model_pg hpos
+  obtain ⟨qn, eqn, _⟩ := sim_model_pg hneg
+  subst eqp eqn
+  unfold DDSketch.Encode
+  dsimp only
+  generalize (if F64.ne za (F64.fin 0) = true then
+      (Gen.Encoding.EncodeVarfloat64 fuel (Gen.Encoding.EncodeFlag buf Gen.Encoding.FlagZeroCountVarFloat) za).bind
+        fun b => Res.ok b
+    else Res.ok buf) = pre
+  cases pre with
+  | panic => exact Or.inr (Or.inl ⟨rfl, rfl⟩)
+  | nofuel => exact Or.inr (Or.inr ⟨rfl, rfl⟩)
+  | ok b0 =>
+    left
+    simp only [Res.bind_ok]
+    generalize (if (!om) = true then MapI.Encode ma b0 else b0) = b1
+    obtain ⟨x1, p1, pbl, pbl', hG, hM, w, w', d, d', hS⟩ :=
+      sim_encode_denotes hpos .pos Gen.Encoding.FlagTypePositiveStore GenEncoding.FlagTypePositiveStore_side
+        flagSide_pos b1 b1 hpp (hpp' qp rfl)
+    obtain ⟨x2, p2, nbl, nbl', hG2, hM2, w2, w2', d2, d2', hS2⟩ :=
+      sim_encode_denotes hneg .neg Gen.Encoding.FlagTypeNegativeStore GenEncoding.FlagTypeNegativeStore_side
+        flagSide_neg (b1 ++ GenEncoding.bn (Wire.encBlocks pbl)) (b1 ++ GenEncoding.bn (Wire.encBlocks pbl'))
+        hpn (hpn' qn rfl)
+    refine ⟨⟨ma, x1, x2, za⟩, ⟨ma, .pg p1, .pg p2, za⟩, b1, pbl, pbl', nbl, nbl', content qp, content qn,
+      ?_, ?_, ⟨rfl, hS, hS2, rfl⟩, w, w', w2, w2', d, d', d2, d2'⟩
+    · simp only [hG, hG2]
+    · simp only [hM, hM2]
 
 end sketch
 
